@@ -7,7 +7,7 @@ CHECKS = {
  "C01": dict(
    technique="property-based fuzzing with process isolation: proptest-generated free-mode templates (grammar over every construct and built-in, boundary arguments, mutations, ladders) plus an enumerated built-in x boundary-argument grid and an enumerated family of loop accumulators, run in worker processes of a debug (opt-level 0, overflow checks) and a release build on 2 MiB and 8 MiB threads; oracle = the worker survives and no panic is caught; parent-side delta-debugging shrinker for crashes; thorough tier adds a coverage-guided libFuzzer campaign (harness/fuzz, target render_bytes) with the same oracle",
    level="exploration",
-   text="Generated templates, companions and contexts are loaded, rendered and evaluated as expressions in child processes; every returned error is formatted in all forms. A panic (caught in the worker), a native stack overflow, an abort or a failed allocation larger than the worker's whole address-space limit is a violation attributed to the case that was running and shrunk by re-spawning single-case children. An enumerated grid applies every built-in filter/test (static list plus the names registered in the tree under test) and every function/loop method to 20 subjects (incl. strings starting with multi-byte characters) with 0-3 boundary arguments and keyword arguments; range() is enumerated over all triples of 16 boundary integers and string literals over every sequence of up to three escape pieces (surrogate halves, malformed \\u/\\x/octal escapes) in four syntactic positions; 15 step expressions grow a namespace attribute over 6 000-120 000 loop steps and 8 consumers use it; 600 programs let a recursive loop object travel into foreign code. Thorough: libFuzzer, 16 processes x VERIF_FUZZ_SECONDS (default 900 s), inputs up to 4 KiB split into main source and companions, crash artifacts re-run alone and saved as replay files. The built-in grid also formats safe format strings (|safe, set-block captures) with undefined, none, safe, unsafe and non-string arguments under all four undefined behaviours.",
+   text="Generated templates, companions and contexts are loaded, rendered and evaluated as expressions in child processes; every returned error is formatted in all forms. A panic (caught in the worker), a native stack overflow, an abort or a failed allocation larger than the worker's whole address-space limit is a violation attributed to the case that was running and shrunk by re-spawning single-case children. An enumerated grid applies every built-in filter/test (static list plus the names registered in the tree under test) and every function/loop method to 20 subjects (incl. strings starting with multi-byte characters) with 0-3 boundary arguments and keyword arguments; range() is enumerated over all triples of 16 boundary integers and string literals over every sequence of up to three escape pieces (surrogate halves, malformed \\u/\\x/octal escapes) in four syntactic positions; 15 step expressions grow a namespace attribute over 6 000-120 000 loop steps and 8 consumers use it; 600 programs let a recursive loop object travel into foreign code. Thorough: libFuzzer, 16 processes x VERIF_FUZZ_SECONDS (default 900 s), inputs up to 4 KiB split into main source and companions, crash artifacts re-run alone and saved as replay files. The built-in grid also formats safe format strings (|safe, set-block captures) with undefined, none, safe, unsafe and non-string arguments under all four undefined behaviours. The grid also keeps loop objects beyond their loop (in a namespace) and reads their attributes afterwards.",
    note="Four listed findings (deep operator ladders, deeply nested values, lazy slice chains, block self-recursion) are native stack overflows; they are excluded by construction (ladder length and fuel caps, no self.block() inside blocks, no re-slicing accumulator) and only their own witnesses are matched. Hangs/oom under the harness limit are counted as inconclusive watchdog hits, not violations.",
    design="3/C01"),
  "C02": dict(
